@@ -354,7 +354,7 @@ func coqStmts(q *influxql.Query, o *hx.Out) string {
 		if cu, ok := s.(*influxql.CreateUserStatement); ok && cu.Admin {
 			ca = true
 		}
-		privs, err := s.RequiredPrivileges()
+		privs, err := meta.VerifStatementPrivileges(s) // the list AuthorizeQuery iterates over (real code)
 		if o != nil {
 			o.Count(fmt.Sprintf("stmt:%T", s))
 		}
@@ -641,7 +641,7 @@ func runHist(e *env, o *hx.Out, d histD, origin string) {
 
 // ---------------------------------------------------------------- HTTP requests
 
-// JWT classes: 0 good; 1 wrong secret; 2 expired; 3 no exp; 4 exp = 0; 5 alg none;
+// JWT classes (10 exp null, 11 negative exp, 12 boolean exp): 0 good; 1 wrong secret; 2 expired; 3 no exp; 4 exp = 0; 5 alg none;
 // 6 no username claim; 7 username not a string; 8 garbage token; 9 exp is a string
 func makeJWT(cls int, username string) string {
 	claims := jwt.MapClaims{}
@@ -673,6 +673,12 @@ func makeJWT(cls int, username string) string {
 		return "abc.def.ghi"
 	case 9:
 		claims["exp"] = "tomorrow"
+	case 10:
+		claims["exp"] = nil // "exp": null
+	case 11:
+		claims["exp"] = -5.5
+	case 12:
+		claims["exp"] = true
 	}
 	tok := jwt.NewWithClaims(method, claims)
 	s, err := tok.SignedString([]byte(secret))
@@ -1307,7 +1313,7 @@ func genCred(r *hx.Rand, users []UserD) CredD {
 	case 8, 9:
 		c.Hdr, c.JU = "bearer", name
 		if r.Chance(35) {
-			c.JWT = 1 + r.Intn(9)
+			c.JWT = 1 + r.Intn(12)
 		}
 	case 10:
 		// two carriers naming different people: parameters win
@@ -1947,6 +1953,13 @@ func designed(e *env, o *hx.Out) {
 			}
 		}
 	}
+	// every defective token class once, with the shared secret configured (only class 0 is admitted)
+	for cls := 1; cls <= 12; cls++ {
+		runReqCase(e, o, reqCaseD{Users: table, DBs: []string{"db0", "db1"}, Secret: true, Reqs: []ReqD{
+			{Kind: "query", Method: "GET", Q: "SELECT * FROM cpu", HasQ: true, DB: "db0", Cred: CredD{Hdr: "bearer", JU: "r0", JWT: cls}},
+			{Kind: "write", DB: "db0", Cred: CredD{Hdr: "bearer", JU: "w0", JWT: cls}},
+		}}, "designed")
+	}
 	// password change / drop / revoke reaching the node with a populated cache
 	runHist(e, o, histD{Evs: []HistEvD{
 		{Op: "create_db", DB: "db0"}, {Op: "create_user", Name: "alice", Hash: 0, Admin: true}, {Op: "publish"},
@@ -1999,6 +2012,10 @@ func runInput(e *env, o *hx.Out, in hx.Input, origin string) {
 		var d raceD
 		must(json.Unmarshal(in.Desc, &d))
 		runRace(e, o, d, origin)
+	case "dbread":
+		var d dbreadD
+		must(json.Unmarshal(in.Desc, &d))
+		runDBRead(e, o, d, origin)
 	default:
 		panic("unknown input kind " + in.Kind)
 	}
@@ -2024,6 +2041,7 @@ func main() {
 	designed(e, o)
 	designedMixed(e, o)
 	designedSeq(e, o)
+	designedDBRead(e, o)
 	r := hx.NewRand(f.Seed)
 	races := 1
 	if f.Tier == "thorough" {
@@ -2051,6 +2069,8 @@ func main() {
 				name = us[r.Intn(len(us))].Name
 			}
 			runWriteAz(e, o, writeAzD{Users: us, Name: name, DB: genDB(r)}, "gen")
+		case k < 18:
+			runDBRead(e, o, genDBRead(r), "gen")
 		default:
 			runHist(e, o, genHist(r), "gen")
 		}
